@@ -158,13 +158,3 @@ func itoa(n int) string {
 	}
 	return s
 }
-
-// H_C15_probe: solver probe (int vs float64).
-func H_C15_probe() {
-	a, fa := mkNum(0, "a")
-	b, fb := mkNum(11, "b")
-	r := Compare(a, b)
-	verif.Assert(r == sign(fa, fb), "mathematical-order")
-	verif.Assert(Compare(b, a) == -r, "antisymmetric")
-	verif.Reach("end")
-}
